@@ -104,6 +104,11 @@ struct DenseModel {
   bool have_forked_obs = false;
   bj::object forked_obs;
 
+  // an exception escaped from the library in the middle of an operation: the object may be half-updated, it is
+  // reported as a deviation and never destroyed (its destructor could take the process down)
+  bool poisoned = false;
+  ~DenseModel() { if (poisoned) (void)mp.release(); }
+
   static std::string& cfgname() { static std::string n; return n; }
   static const char* name() { return cfgname().c_str(); }
   static std::string make_name() {
@@ -255,6 +260,9 @@ struct DenseModel {
 
   // ----- actions -----
   bj::object apply(const bj::object& act) {
+    try { return apply_(act); } catch (...) { poisoned = true; throw; }
+  }
+  bj::object apply_(const bj::object& act) {
     std::string op(act.at("op").as_string());
     bj::object out;
     have_forked_obs = false;
@@ -420,6 +428,7 @@ struct DenseModel {
         c["ze"] = ze;
       } catch (const std::exception& e) {
         c["exception"] = e.what();
+        poisoned = true;
       }
       cs.push_back(c);
     }
@@ -495,6 +504,15 @@ inline bool name_selected(const std::string& name) {
   return true;
 }
 
+inline void report_exception(ReplayCtx& ctx, ReplayStats& st, std::int64_t u, std::int64_t k, int step, const char* phase,
+                             const bj::object& act, const std::string& what) {
+  st.deviations++;
+  if (static_cast<std::size_t>(st.deviations) > ctx.max_dev_report) return;
+  bj::object o{{"kind", "deviation"}, {"cfg", st.cfg}, {"u", u}, {"k", k}, {"step", step}, {"phase", phase}, {"act", act}};
+  o["diffs"] = bj::array{bj::object{{"path", "act.exception"}, {"exp", nullptr}, {"got", what}}};
+  std::fprintf(ctx.out, "%s\n", bj::serialize(o).c_str());
+}
+
 template <class Model>
 void dense_replay_config(ReplayCtx& ctx) {
   ReplayStats st;
@@ -517,9 +535,17 @@ void dense_replay_config(ReplayCtx& ctx) {
         if (!m.applicable(act) || m.risky(act)) { followable = false; break; }
         crash_ctx().where = st.cfg + " path u=" + std::to_string(u) + " step=" + std::to_string(step);
         bj::object got;
-        try { got = m.apply(act); } catch (const std::exception& e) { got["exception"] = e.what(); }
+        try { got = m.apply(act); } catch (const std::exception& e) {
+          report_exception(ctx, st, u, -1, step, "path", act, e.what());
+          path_ok = false;
+          break;
+        }
         st.steps++;
-        if (!check_step(m, act, got, ctx.states[s.at("to").as_int64()], ctx, st, u, -1, step, "path")) { path_ok = false; break; }
+        if (!check_step(m, act, got, ctx.states[s.at("to").as_int64()], ctx, st, u, -1, step, "path")) {
+          m.poisoned = true;  // an object that deviated is never destroyed (its destructor may crash)
+          path_ok = false;
+          break;
+        }
         ++step;
       }
     }
@@ -530,13 +556,30 @@ void dense_replay_config(ReplayCtx& ctx) {
       std::int64_t k = e.at("k").as_int64();
       Model m;
       crash_ctx().where = st.cfg + " edge u=" + std::to_string(u) + " k=" + std::to_string(k);
-      for (auto& sv : path) m.apply(sv.as_object().at("act").as_object());
+      // the prefix is executed without observations in between (observing orders the rows: lazy state differs)
+      bool prefix_ok = true;
+      int pstep = 0;
+      for (auto& sv : path) {
+        const bj::object& pact = sv.as_object().at("act").as_object();
+        try { m.apply(pact); } catch (const std::exception& ex) {
+          report_exception(ctx, st, u, -1, pstep, "path", pact, ex.what());
+          prefix_ok = false;
+          break;
+        }
+        ++pstep;
+      }
+      if (!prefix_ok) { st.skipped += edges.size(); break; }
       if (!m.applicable(act)) { st.skipped++; continue; }
       bj::object got;
-      try { got = m.apply(act); } catch (const std::exception& ex) { got["exception"] = ex.what(); }
+      try { got = m.apply(act); } catch (const std::exception& ex) {
+        report_exception(ctx, st, u, k, static_cast<int>(path.size()), "edge", act, ex.what());
+        st.behaviours++;
+        continue;
+      }
       st.steps += path.size() + 1;
       st.behaviours++;
-      check_step(m, act, got, ctx.states[e.at("to").as_int64()], ctx, st, u, k, static_cast<int>(path.size()), "edge");
+      if (!check_step(m, act, got, ctx.states[e.at("to").as_int64()], ctx, st, u, k, static_cast<int>(path.size()), "edge"))
+        m.poisoned = true;
     }
   }
   bj::object o{{"kind", "summary"}, {"cfg", st.cfg}, {"behaviours", st.behaviours}, {"steps", st.steps},
